@@ -549,6 +549,22 @@ func c17Run(c *core.Ctx) *core.Result {
 	}
 	sample.View = trunc(sample.View, 40)
 
+	// an export is a read-only use of the view: a quarter of the cases first
+	// export the same FS object through a filter whose Map rewrites every
+	// stat it is shown (owner, mode, time: what a normalising exporter does);
+	// the export under test must not see any of that
+	if core.NewRand(core.Mix(c.Seed, "C17-pre-export", c.Index)).P(1, 4) {
+		pre, err := fsutil.NewFilterFS(base, &fsutil.FilterOpt{Map: func(_ string, st *types.Stat) fsutil.MapResult {
+			st.Uid, st.Gid, st.ModTime = st.Uid+100000, 77, 0
+			st.Mode = st.Mode&^0777 | 0700
+			st.Xattrs = nil
+			return fsutil.MapResultKeep
+		}})
+		if err == nil {
+			fsutil.WriteTar(context.Background(), pre, io.Discard)
+			r.Count("exports_after_a_rewriting_export_of_the_same_fs", 1)
+		}
+	}
 	// the call under test
 	var buf bytes.Buffer
 	if err := fsutil.WriteTar(context.Background(), fs, &buf); err != nil {
